@@ -4,10 +4,13 @@ import (
 	"context"
 	"encoding/hex"
 	"fmt"
+	"net/http"
+	"sort"
 	"strconv"
 	"strings"
 	"testing"
 
+	"go.opentelemetry.io/otel/baggage"
 	"go.opentelemetry.io/otel/trace"
 )
 
@@ -19,7 +22,12 @@ import (
 //	roundtrip <gen> <xtid> <xsid> <flags> <remote> <members> =>
 //	    builderr | <x injected traceparent|-> <x injected tracestate|-> | none|<xtid> <xsid> <flags> <remote> <xtsString>
 //
-// `none` = Extract returned the very context it was given. See lean/Otel/C03/Main.lean.
+//	carrier <gen> m|h | set <xk> <xv> | get <xk> | add <xk> <xv> | raw <xk> <xv,..|-> | keys ... => - | v:<xv> | k:<xk,..|-> ...
+//	composite <gen> m|h <order> <xtid> <xsid> <flags> <remote 0|1|n> <members> <presets> <tags>
+//	    (order: T = TraceContext{}, P<i> = probe propagator i, B = Baggage{} with the baggage k=v in the context)
+//	    => builderr | <carrier dump> | none|<xtid> <xsid> <flags> <remote> <xtsString> | <tag reads> | <fields>
+//
+// `none` = Extract returned the very context it was given. See lean/Otel/C03/Main.lean and MainDeep.lean.
 func TestVerifC03Prop(t *testing.T) {
 	out := vOpen(t)
 	defer out.Close()
@@ -34,6 +42,11 @@ func TestVerifC03Prop(t *testing.T) {
 			case "roundtrip":
 				fl, _ := strconv.Atoi(f[4])
 				c.roundtrip(f[1], vUnhex(f[2]), vUnhex(f[3]), byte(fl), f[5] == "1", c03ParseMembers(f[6]))
+			case "carrier":
+				c.carrierRun(f[1], f[2], c03Groups(f[3:]))
+			case "composite":
+				fl, _ := strconv.Atoi(f[6])
+				c.compositeRun(f[1], f[2], f[3], vUnhex(f[4]), vUnhex(f[5]), byte(fl), f[7], c03ParseMembers(f[8]), c03ParseMembers(f[9]), c03ParseMembers(f[10]))
 			}
 		}
 		return
@@ -44,7 +57,13 @@ func TestVerifC03Prop(t *testing.T) {
 		c.exhaustive(r)
 	}
 	for i := 0; i < n; i++ {
-		switch r.Intn(16) {
+		switch r.Intn(21) {
+		case 20:
+			c.limitsGen(r)
+		case 16, 17:
+			c.compositeGen(r)
+		case 18, 19:
+			c.carrierGen(r)
 		case 0, 1, 2:
 			c.roundtripGen(r)
 		case 3, 4:
@@ -522,4 +541,344 @@ func c03N(r *vRand) int {
 		return vPick(r, []int{30, 31, 32, 33, 34})
 	}
 	return r.Intn(8)
+}
+
+// ---- carriers and the composite propagator ----
+
+func c03Groups(toks []string) [][]string {
+	var ops [][]string
+	var cur []string
+	for _, tok := range toks {
+		if tok == "|" {
+			if cur != nil {
+				ops = append(ops, cur)
+			}
+			cur = []string{}
+			continue
+		}
+		cur = append(cur, tok)
+	}
+	if cur != nil {
+		ops = append(ops, cur)
+	}
+	return ops
+}
+
+func c03HexList(xs []string) string {
+	if len(xs) == 0 {
+		return "-"
+	}
+	hs := make([]string, len(xs))
+	for i, x := range xs {
+		hs[i] = vHex(x)
+	}
+	sort.Strings(hs)
+	return strings.Join(hs, ",")
+}
+
+func (c *c03prop) carrierRun(gen, kind string, ops [][]string) {
+	var res []string
+	func() {
+		defer func() {
+			if e := recover(); e != nil {
+				res = append(res, "panic")
+			}
+		}()
+		var car TextMapCarrier
+		hdr := http.Header{}
+		mp := MapCarrier{}
+		if kind == "h" {
+			car = HeaderCarrier(hdr)
+		} else {
+			car = mp
+		}
+		for _, op := range ops {
+			switch op[0] {
+			case "set":
+				car.Set(vUnhex(op[1]), vUnhex(op[2]))
+				res = append(res, "-")
+			case "get":
+				res = append(res, "v:"+vHex(car.Get(vUnhex(op[1]))))
+			case "add":
+				hdr.Add(vUnhex(op[1]), vUnhex(op[2]))
+				res = append(res, "-")
+			case "raw":
+				var vs []string
+				if op[2] != "-" {
+					for _, x := range strings.Split(op[2], ",") {
+						vs = append(vs, vUnhex(x))
+					}
+				}
+				hdr[vUnhex(op[1])] = vs
+				res = append(res, "-")
+			case "keys":
+				res = append(res, "k:"+c03HexList(car.Keys()))
+			}
+		}
+	}()
+	var in strings.Builder
+	for _, op := range ops {
+		in.WriteString(" | " + strings.Join(op, " "))
+	}
+	c.out.Line("carrier %s %s%s => %s", gen, kind, in.String(), strings.Join(res, " | "))
+}
+
+var c03CarKeys = []string{"traceparent", "tracestate", "Traceparent", "TraceParent", "TRACESTATE", "tracE-state", "trace-parent",
+	"x-tag", "X-Tag", "x-Tag-a", "baggage", "a", "A", "", "a b", "Trace State", "tr\xc3\xa9", "a_b", "x-a-B", "-a", "a-", "a--b", "z~1", "k:v"}
+
+func c03CarKey(r *vRand) string {
+	if r.Intn(6) == 0 {
+		return vStr(r, 4)
+	}
+	return vPick(r, c03CarKeys)
+}
+
+func (c *c03prop) carrierGen(r *vRand) {
+	kind := vPick(r, []string{"m", "h", "h"})
+	n := 1 + r.Intn(12)
+	var ops [][]string
+	for i := 0; i < n; i++ {
+		k := vHex(c03CarKey(r))
+		v := vHex(vPick(r, []string{"", "1", "v2", "a=b,c", "00-x"}))
+		switch x := r.Intn(10); {
+		case x < 4:
+			ops = append(ops, []string{"set", k, v})
+		case x < 7:
+			ops = append(ops, []string{"get", k})
+		case x == 7:
+			ops = append(ops, []string{"keys"})
+		case x == 8 && kind == "h":
+			ops = append(ops, []string{"add", k, v})
+		case x == 9 && kind == "h":
+			vs := vPick(r, []string{"-", v, v + "," + vHex("second")})
+			ops = append(ops, []string{"raw", k, vs})
+		default:
+			ops = append(ops, []string{"get", k})
+		}
+	}
+	c.carrierRun("ops", kind, ops)
+}
+
+// c03Tag is the probe propagator: Inject sets one key, Extract records what Get of that key returns.
+type c03Tag struct {
+	i        int
+	key, val string
+}
+
+type c03TagKey int
+
+func (p c03Tag) Inject(_ context.Context, car TextMapCarrier) { car.Set(p.key, p.val) }
+func (p c03Tag) Extract(ctx context.Context, car TextMapCarrier) context.Context {
+	reads, _ := ctx.Value(c03TagKey(0)).([]string)
+	reads = append(append([]string{}, reads...), car.Get(p.key))
+	return context.WithValue(ctx, c03TagKey(0), reads)
+}
+func (p c03Tag) Fields() []string { return []string{p.key} }
+
+func c03KVs(ms []c03kv) string {
+	if len(ms) == 0 {
+		return "-"
+	}
+	var ps []string
+	for _, m := range ms {
+		ps = append(ps, vHex(m.k)+":"+vHex(m.v))
+	}
+	return strings.Join(ps, ",")
+}
+
+func (c *c03prop) compositeRun(gen, kind, order, tid, sid string, flags byte, rem string, ms, presets, tags []c03kv) {
+	var res string
+	func() {
+		defer func() {
+			if e := recover(); e != nil {
+				res = "panic"
+			}
+		}()
+		ts := trace.TraceState{}
+		for i := len(ms) - 1; i >= 0; i-- {
+			var err error
+			ts, err = ts.Insert(ms[i].k, ms[i].v)
+			if err != nil {
+				res = "builderr"
+				return
+			}
+		}
+		var ps []TextMapPropagator
+		if order != "-" {
+			for _, w := range strings.Split(order, ",") {
+				if w == "T" {
+					ps = append(ps, TraceContext{})
+				} else if w == "B" {
+					ps = append(ps, Baggage{})
+				} else {
+					i, _ := strconv.Atoi(w[1:])
+					t := c03kv{}
+					if i < len(tags) {
+						t = tags[i]
+					}
+					ps = append(ps, c03Tag{i: i, key: t.k, val: t.v})
+				}
+			}
+		}
+		comp := NewCompositeTextMapPropagator(ps...)
+		var car TextMapCarrier
+		hdr := http.Header{}
+		mp := MapCarrier{}
+		if kind == "h" {
+			car = HeaderCarrier(hdr)
+		} else {
+			car = mp
+		}
+		for _, p := range presets {
+			car.Set(p.k, p.v)
+		}
+		ctx := context.Background()
+		if bag, err := baggage.Parse("k=v"); err == nil {
+			ctx = baggage.ContextWithBaggage(ctx, bag)
+		}
+		if rem != "n" {
+			var cfg trace.SpanContextConfig
+			copy(cfg.TraceID[:], tid)
+			copy(cfg.SpanID[:], sid)
+			cfg.TraceFlags = trace.TraceFlags(flags)
+			cfg.TraceState = ts
+			cfg.Remote = rem == "1"
+			ctx = trace.ContextWithSpanContext(ctx, trace.NewSpanContext(cfg))
+		}
+		comp.Inject(ctx, car)
+		var dump []string
+		if kind == "h" {
+			for k, vs := range hdr {
+				v := ""
+				if len(vs) > 0 {
+					v = vs[0]
+				}
+				dump = append(dump, vHex(k)+":"+vHex(v))
+			}
+		} else {
+			for k, v := range mp {
+				dump = append(dump, vHex(k)+":"+vHex(v))
+			}
+		}
+		sort.Strings(dump)
+		ds := "-"
+		if len(dump) > 0 {
+			ds = strings.Join(dump, ",")
+		}
+		// the keys the carrier lists are the keys of the dump
+		keys := car.Keys()
+		if len(keys) != len(dump) {
+			ds += "!keys"
+		}
+		ctx1 := comp.Extract(c.ctx0, car)
+		ex := "none"
+		if e := trace.SpanContextFromContext(ctx1); !e.Equal(c.local) {
+			etid, esid := e.TraceID(), e.SpanID()
+			ex = fmt.Sprintf("%s %s %d %d %s", vHexB(etid[:]), vHexB(esid[:]), byte(e.TraceFlags()), c03b(e.IsRemote()), vHex(e.TraceState().String()))
+		}
+		reads, _ := ctx1.Value(c03TagKey(0)).([]string)
+		rs := "-"
+		if len(reads) > 0 {
+			hs := make([]string, len(reads))
+			for i, x := range reads {
+				hs[i] = vHex(x)
+			}
+			rs = strings.Join(hs, ",")
+		}
+		res = ds + " | " + ex + " | " + rs + " | " + c03HexList(comp.Fields())
+	}()
+	tb, sb := make([]byte, 16), make([]byte, 8)
+	copy(tb, tid)
+	copy(sb, sid)
+	c.out.Line("composite %s %s %s %s %s %d %s %s %s %s => %s", gen, kind, order, vHexB(tb), vHexB(sb), flags, rem, c03KVs(ms), c03KVs(presets), c03KVs(tags), res)
+}
+
+func (c *c03prop) compositeGen(r *vRand) {
+	kind := vPick(r, []string{"m", "h"})
+	ntags := r.Intn(4)
+	var tags []c03kv
+	for i := 0; i < ntags; i++ {
+		k := vPick(r, []string{"x-tag", "x-tag2", "baggage", "b3", "X-Other"})
+		if r.Intn(5) == 0 {
+			k = c03CarKey(r) // may clash with traceparent / tracestate (exactly, or after canonicalisation)
+		}
+		tags = append(tags, c03kv{k, vPick(r, []string{"1", "v", "a=b", ""})})
+	}
+	// order: a shuffle of T and the tags, sometimes without T or with T twice
+	var ord []string
+	for i := range tags {
+		ord = append(ord, "P"+strconv.Itoa(i))
+	}
+	switch r.Intn(8) {
+	case 0:
+	case 1:
+		ord = append(ord, "T", "T")
+	default:
+		ord = append(ord, "T")
+	}
+	if r.Intn(3) == 0 {
+		ord = append(ord, "B") // the real propagation.Baggage{}; the context carries the baggage k=v
+	}
+	for i := len(ord) - 1; i > 0; i-- {
+		j := r.Intn(i + 1)
+		ord[i], ord[j] = ord[j], ord[i]
+	}
+	order := "-"
+	if len(ord) > 0 {
+		order = strings.Join(ord, ",")
+	}
+	var presets []c03kv
+	if r.Intn(3) == 0 {
+		for i, n := 0, 1+r.Intn(2); i < n; i++ {
+			k := vPick(r, []string{"tracestate", "traceparent", "Tracestate", "TRACEPARENT", "x-old", "x-tag"})
+			v := vPick(r, []string{"old=1", "00-0af7651916cd43dd8448eb211c80319c-b7ad6b7169203331-01", "zz", ""})
+			presets = append(presets, c03kv{k, v})
+		}
+	}
+	n := vPick(r, []int{0, 0, 1, 2, 3, 32})
+	var ms []c03kv
+	for i := 0; i < n; i++ {
+		ms = append(ms, c03kv{"k" + strconv.Itoa(i) + c03Key(r, false)[:1], c03Val(r, false)})
+	}
+	rem := vPick(r, []string{"0", "1", "0", "1", "n"})
+	fl := byte(r.Intn(4))
+	c.compositeRun("gen", kind, order, c03ID(r, 16), c03ID(r, 8), fl, rem, ms, presets, tags)
+}
+
+// ---- span contexts whose tracestate is at the grammar limits (max key AND max value in one member, 32 members) ----
+
+func (c *c03prop) limitsGen(r *vRand) {
+	fill := func(first string, n int) string { return c03KeyPart(r, first, n-1) }
+	var k string
+	switch r.Intn(3) {
+	case 0:
+		k = fill("abz", 256)
+	case 1:
+		k = fill("a09", 241) + "@" + fill("abz", 14)
+	default:
+		k = fill("a09", 1+r.Intn(241)) + "@" + fill("abz", 1+r.Intn(14))
+	}
+	v := make([]byte, vPick(r, []int{256, 256, 255, 257}))
+	for i := range v {
+		v[i] = "az09 ~!;:"[r.Intn(9)]
+	}
+	if v[len(v)-1] == ' ' {
+		v[len(v)-1] = '~'
+	}
+	ms := []c03kv{{k, string(v)}}
+	for i, n := 0, vPick(r, []int{0, 1, 31, 32}); i < n; i++ {
+		ms = append(ms, c03kv{"k" + strconv.Itoa(i), c03Val(r, false)})
+	}
+	if r.Bool() {
+		ms[0], ms[len(ms)-1] = ms[len(ms)-1], ms[0]
+	}
+	if r.Bool() {
+		c.roundtrip("lim", c03ID(r, 16), c03ID(r, 8), byte(r.Intn(4)), r.Bool(), ms)
+	} else {
+		var ps []string
+		for _, m := range ms {
+			ps = append(ps, m.k+"="+m.v)
+		}
+		c.extract("lim", c03TP(r, 0, byte(r.Intn(2)), ""), strings.Join(ps, ","))
+	}
 }
